@@ -72,6 +72,40 @@ func c03r1(r *R) {
 				}
 			}
 		}
+		// ... or a function split out of DialContextR that is handed that reader
+		if h := rr.Parent(); !bound && isNewHelper(h) {
+			if prm, ok := rr.Common().Args[0].(*ssa.Parameter); ok {
+				idx := -1
+				for i, q := range h.Params {
+					if q == prm {
+						idx = i
+					}
+				}
+				for _, fn := range withClosures(dl) {
+					for _, b := range fn.Blocks {
+						for _, ins := range b.Instrs {
+							c, ok := ins.(ssa.CallInstruction)
+							if !ok || staticCallee(c.Common()) != h || idx < 0 || idx >= len(c.Common().Args) {
+								continue
+							}
+							a := c.Common().Args[idx]
+							if a == ssa.Value(nr) {
+								bound = true
+							}
+							if u, ok := a.(*ssa.UnOp); ok {
+								if al, ok := u.X.(*ssa.Alloc); ok {
+									for _, sv := range storesTo(al) {
+										if sv == ssa.Value(nr) {
+											bound = true
+										}
+									}
+								}
+							}
+						}
+					}
+				}
+			}
+		}
 		good = good && (bound || rr.Parent() == dl && rr.Common().Args[0] == ssa.Value(nr))
 	}
 	r.check(good, "DialContextR#reply-reader", rr.Pos(), "ReadResponse reads through bufio over byteReader{conn}", "the CONNECT reply is read through a reader that may buffer bytes beyond the reply head: early tunnel data from the target would be lost")
